@@ -408,7 +408,12 @@ partial def loop (h : IO.FS.Stream) (s : St) : IO Unit := do
     | ["oAfterExpect", b, n] =>
       -- C18: when expect() has returned / raised / been cancelled, its temporary subscription is gone from the real bus
       let mdl := (s.w.bus b.toNat!).handlers.length
-      if n.toNat! > mdl then
+      if n.toNat! < mdl then
+        IO.println s!"OBS {s.sc} {s.line} bus {b} #handlers model={mdl} real={n}"
+        printVios (s.sc ++ "~") s.line
+          [⟨"C18", "otherHandlersAffected", [], s!"bus {b}: {n} handlers registered after expect() ended, {mdl} expected: the end of one expect() removed another subscription"⟩]
+        loop h { s with diverged := true }
+      else if n.toNat! > mdl then
         IO.println s!"OBS {s.sc} {s.line} bus {b} #handlers model={mdl} real={n}"
         printVios (s.sc ++ "~") s.line
           [⟨"C18", "subscriptionLeft", [], s!"bus {b}: {n} handlers registered after expect() ended, {mdl} expected: the temporary subscription was not removed"⟩]
@@ -469,6 +474,23 @@ partial def loop (h : IO.FS.Stream) (s : St) : IO Unit := do
               let sg : List String := if E.path.getLast? != some I.bus && E.path.contains I.bus then ["F9"] else []
               let vio : Vio := ⟨"C09", "eventBus", sg, s!"instance {i} on bus {I.bus} read event_bus = {got}"⟩
               printVios (if s.diverged then s.sc ++ "~" else s.sc) s.line [vio]
+          -- C03 / C08: the real completion signal is set while a handler result of the event is not terminal
+          | ["oEvS", e, _, sg, _] =>
+            let E := s.w.ev e.toNat!
+            if sg == "1" && !treeDone s.w e.toNat! then
+              let sigs : List String := if E.path.length > 1 || f4Sig s.w e.toNat! then ["F4"] else []
+              printVios (if s.diverged || !diffs.isEmpty then s.sc ++ "~" else s.sc) s.line
+                [⟨"C08", "signalledBeforeTreeDone", sigs, s!"event {e} is signalled complete while its tree is not done (a handler result not terminal or a descendant incomplete)"⟩,
+                 ⟨"C03", "signalledBeforeTreeDone", sigs, s!"event {e} is signalled complete while its tree is not done (a handler result not terminal or a descendant incomplete)"⟩]
+            else pure ()
+          -- C15: the real unfinished-task counter of the queue covers everything queued or in some executor's hand
+          -- (the invariant `C15_unfinished_counts_at_least_everything_queued_or_in_hand`, on the observed counter)
+          | ["oUnf", b, n] =>
+            let need := (s.w.bus b.toNat!).queue.length + hand s.w b.toNat!
+            if n.toNat! < need then
+              printVios (s.sc ++ "~") s.line
+                [⟨"C15", "counterBelowInHand", [], s!"bus {b}: the queue's unfinished counter is {n} while {need} events are queued or in hand: join() can be released while an event of the bus is still being processed"⟩]
+            else pure ()
           -- C07: the observed event_path lists no bus twice
           | ["oEv", e, _, _, _, path, _] =>
             let pth := natList path
@@ -488,6 +510,12 @@ partial def loop (h : IO.FS.Stream) (s : St) : IO Unit := do
                   else pure ()
                 | none => pure ())
              | _, _ => pure ())
+            -- C11: a handler result carries a cancellation error although nothing in the run was cancelled (no timeout, no
+            -- stop(), no run-loop cancellation): some other handler's failure was propagated to it
+            if err == "cancelled" && !s.m.everTimeout && s.m.stopped.isEmpty && s.m.rlCancelledBy.isEmpty && s.m.dropped.isEmpty then
+              printVios (if s.diverged then s.sc ++ "~" else s.sc) s.line
+                [⟨"C11", "foreignCancellation", [], s!"event {e} result #{idx} is a cancellation error although no timeout, stop() or run-loop cancellation occurred"⟩]
+            else pure ()
             -- C10: at rest no handler result is left pending / started once a timeout has occurred in the run, unless a
             -- recorded mechanism (in its narrow form) or the client's stop() explains it
             let hs := hangSigs s.w s.m e.toNat!
